@@ -287,7 +287,11 @@ func main() {
 	of := flag.Int("of", 1, "")
 	after := flag.Int("after", -1, "skip case ids <= after (resume after a crash of the driver process)")
 	probe := flag.String("probe", "", "run one ad-hoc JSON shape and print the result")
+	wd := flag.Float64("watchdog", 20, "seconds without a verdict after which a case is a TIMEOUT")
+	hang := flag.Float64("hang", 3, "the same for the cases that wait on something that may never come (over-long block range)")
 	flag.Parse()
+	watchdog = time.Duration(*wd * float64(time.Second))
+	hangTimeout = time.Duration(*hang * float64(time.Second))
 	seed = tr.Seed()
 	defer sim.Cleanup()
 
@@ -306,7 +310,9 @@ func main() {
 	}
 
 	var cases []*Case
+	line := -1
 	tr.ReadLines(*casesPath, func(raw []byte) {
+		line++
 		c := &Case{}
 		if err := json.Unmarshal(raw, c); err != nil {
 			panic(err)
@@ -314,7 +320,8 @@ func main() {
 		if err := json.Unmarshal(c.C, &c.m); err != nil {
 			panic(err)
 		}
-		if c.Id%*of == *shard && c.Id > *after {
+		// shards go by position in the file (ids may be sparse); the file is sorted by id
+		if line%*of == *shard && c.Id > *after {
 			cases = append(cases, c)
 		}
 	})
@@ -361,6 +368,8 @@ func main() {
 			os.Exit(4)
 		}
 	}
+	// background goroutines of the node get a moment to fail while the last case is still the one in flight
+	time.Sleep(100 * time.Millisecond)
 	if inf != nil {
 		inf.WriteAt([]byte(fmt.Sprintf("%-12s", "done")), 0)
 	}
@@ -385,8 +394,18 @@ func releaser() {
 
 func runCase(c *Case) Result {
 	class := c.s("state")
-	r := getRig(class)
+	var r *rig
 	var p *prepared
+	func() {
+		defer func() {
+			if x := recover(); x != nil {
+				// the honest node could not be brought into the state class: nothing can be said about hostile input
+				fmt.Printf("HARNESS-ERROR: world of state class %s could not be built: %v\n%s\n", class, x, debug.Stack())
+				os.Exit(3)
+			}
+		}()
+		r = getRig(class)
+	}()
 	func() {
 		defer func() {
 			if x := recover(); x != nil {
@@ -397,6 +416,11 @@ func runCase(c *Case) Result {
 		p = prepare(c, r)
 	}()
 	res := guarded(p)
+	if p.shared && res.Verdict != "TIMEOUT" {
+		// whatever the case left in the flipper's queue is worked off while the case is still the one in flight:
+		// a failure of that goroutine kills the process, and is then charged to this case
+		r.fp.VerifWaitIdle(5 * time.Second)
+	}
 	if res.dirty || r.headMoved() {
 		rigs[class] = nil
 	}
